@@ -97,6 +97,7 @@ var directedClasses = []directedClass{
 	{"degree-zero", []string{"text-degree", "yaml"}},
 	{"null-instance", []string{"yaml", "yaml-event", "yaml-parse", "yaml-conv"}},
 	{"zero-default-flag", []string{"flag-bpm-0", "flag-velocity-empty", "flag-meter-empty", "flag-key-empty", "flag-all"}},
+	{"unknown-conversion-step", []string{"step-only", "step-first", "step-middle", "step-last", "step-twice"}},
 	{"inconsistent-dictionary", []string{"dict-write", "dict-write-event", "dict-write-parse", "dict-write-conv", "dict-chord-describe", "dict-attr-describe"}},
 }
 
@@ -297,6 +298,34 @@ func checkC09Directed(c C09Directed) *Violation {
 			yamlOverride = strings.Replace(doc.YAML(), "degree: "+yq(ivText(doc.Insts[j].Chord.Deg, false)), "degree: \"0\"", 1)
 			firstFailing = "write"
 		}
+	case "unknown-conversion-step":
+		// `info key conv -c`: the documented steps are p, r, d, s; a chain with any other letter, wherever it
+		// stands, is not a conversion and must be refused rather than partly applied
+		n := 1 + seed%6
+		var valid []string
+		for i := 0; i < n; i++ {
+			valid = append(valid, string("prds"[(seed/3+i*(1+seed%3))%4]))
+		}
+		bad := pickFrom(seed/2, []string{"x", "P", "D", "é", "1", ",", "-", "q", "S", "R", "."})
+		k := (seed / 5) % (len(valid) + 1)
+		var chain string
+		switch c.Channel {
+		case "step-only":
+			chain = bad
+		case "step-first":
+			chain = bad + strings.Join(valid, "")
+		case "step-last":
+			chain = strings.Join(valid, "") + bad
+		case "step-twice":
+			chain = bad + strings.Join(valid, bad)
+		default:
+			valid = append(valid, valid[0])
+			k = 1 + k%(len(valid)-1)
+			chain = strings.Join(valid[:k], "") + bad + strings.Join(valid[k:], "")
+		}
+		key := pickFrom(seed+at, theory.ListedKeys)
+		res := Run{Argv: []string{"info", "key", "conv", "--key", key, "-c", chain}}.Exec()
+		return mustFail(res, fmt.Sprintf("unknown conversion step: `crd info key conv --key %s -c %q`", key, chain))
 	case "zero-default-flag":
 		// a flag set to its empty / zero default means "no override": same bytes as without the flag,
 		// and in particular never a tempo of 0
